@@ -207,6 +207,12 @@ class Repo:
         pkg = os.path.join(self.root, 'biom')
         if not os.path.isdir(pkg):
             raise AnalysisError("no biom/ package under %s" % self.root)
+        try:
+            from .normalize import load_table_signatures
+            with open(os.path.join(pkg, 'table.py'), encoding='utf8') as fh:
+                load_table_signatures(fh.read())
+        except OSError:
+            pass
         for dirpath, dirnames, filenames in os.walk(pkg):
             dirnames[:] = sorted(d for d in dirnames
                                  if d not in PY_EXCLUDE and
